@@ -426,6 +426,113 @@ static void rearm_scenario(rng &r, int reactor)
 	O().count("rearm_scenarios");
 }
 
+// A second wait of the same kind armed on a descriptor while the first is still pending (an application that flushes twice
+// without waiting, two readers of one socket): "each handler given to the event loop ... is invoked exactly once" - the one that
+// does not get the event has to hear a cancellation/error code, it must not vanish.
+static void double_wait_scenario(rng &r, int reactor)
+{
+	aio::io_service srv(reactor);
+	logbook lb;
+	int sv[2];
+	if (socketpair(AF_UNIX, SOCK_STREAM, 0, sv)) return;
+	bool reading = r.chance(1, 2);
+	int waits = r.range(2, 3);
+	std::vector<long> ids;
+	struct stop2 { aio::io_service *s; void operator()() const { s->stop(); } };
+	struct stop1 { aio::io_service *s; void operator()() const { stop2 h = { s }; s->post(h); } };
+	struct stopper { aio::io_service *s; void operator()(booster::system::error_code const &) const { stop1 h = { s }; s->post(h); } };
+	struct arm { aio::io_service *srv; logbook *lb; std::vector<long> *ids; int fd, peer, waits; bool reading;
+		void operator()() const {
+			for (int i = 0; i < waits; i++) {
+				long id = lb->add(reading ? K_IO_READ : K_IO_WRITE, 0); ids->push_back(id);
+				ev_handler h = { lb, id, 0 };
+				srv->set_io_event(fd, reading ? aio::io_events::in : aio::io_events::out, h);
+			}
+			if (reading) { char c = 'x'; if (write(peer, &c, 1) != 1) {} }
+		} };
+	arm a = { &srv, &lb, &ids, sv[0], sv[1], waits, reading };
+	srv.post(a);
+	stopper st = { &srv };
+	srv.set_timer_event(ptime::now() + ptime::from_number(0.4), st);
+	srv.run();
+	std::vector<int> count(lb.regs.size(), 0); std::vector<run const *> first(lb.regs.size(), (run const *)0);
+	for (auto const &x : lb.runs) { count[x.id]++; if (!first[x.id]) first[x.id] = &x; }
+	std::string rp = "{\"scenario\":\"double-wait\",\"reactor\":" + std::to_string(reactor) + ",\"waits\":" + std::to_string(waits) + ",\"reading\":" + (reading ? "true" : "false") + "}";
+	int successes = 0;
+	for (size_t k = 0; k < ids.size(); k++) {
+		long id = ids[k];
+		O().count("handlers_registered");
+		if (count[id] != 1) { O().viol(count[id] ? "aio:handler-ran-more-than-once:double-wait" : "aio:handler-never-ran:double-wait", std::string(reading ? "read" : "write") + " wait " + std::to_string(k) + " of " + std::to_string(waits) + " armed on one descriptor", rp); continue; }
+		if (first[id]->err == 0) successes++;
+	}
+	// (readiness is a level, not an event that gets used up: a wait armed after an earlier one was served sees the descriptor still ready,
+	// so more than one success is legitimate)
+	O().count("double_wait_successes", successes);
+	O().count("double_wait_scenarios");
+	srv.cancel_io_events(sv[0]);
+	close(sv[0]); close(sv[1]);
+}
+
+// A descriptor cancelled and closed inside a handler while other handlers are queued, its number taken at once by a new socket
+// that is armed and becomes readable (what a server does all day: close one connection, accept the next): the wait on the old
+// descriptor was cancelled before anything happened on it, so its handler must hear the cancellation - not the new socket's event.
+static void fd_reuse_scenario(rng &r, int reactor)
+{
+	aio::io_service srv(reactor);
+	logbook lb;
+	int a[2];
+	if (socketpair(AF_UNIX, SOCK_STREAM, 0, a)) return;
+	int behind = r.range(1, 3);
+	long old_id = lb.add(K_IO_CANCEL, 0), new_id = -1;
+	int b[2] = { -1, -1 };
+	bool reused = false;
+	struct stop2 { aio::io_service *s; void operator()() const { s->stop(); } };
+	struct stop1 { aio::io_service *s; void operator()() const { stop2 h = { s }; s->post(h); } };
+	struct stopper { aio::io_service *s; void operator()(booster::system::error_code const &) const { stop1 h = { s }; s->post(h); } };
+	struct nop { void operator()() const {} };
+	struct swap_fd { aio::io_service *srv; logbook *lb; int *a; int *b; long old_id; long *new_id; bool *reused;
+		void operator()() const {
+			lb->mark_cancel(old_id);
+			srv->cancel_io_events(a[0]);
+			int number = a[0];
+			close(a[0]); a[0] = -1;
+			if (socketpair(AF_UNIX, SOCK_STREAM, 0, b)) return;
+			if (b[0] != number) { if (b[1] == number) std::swap(b[0], b[1]); else return; }
+			*reused = true;
+			*new_id = lb->add(K_IO_READ, 0);
+			ev_handler h = { lb, *new_id, 0 };
+			srv->set_io_event(b[0], aio::io_events::in, h);
+			if (write(b[1], "NEW", 3) != 3) {}
+		} };
+	struct arm { aio::io_service *srv; logbook *lb; int *a; long old_id; swap_fd sw; int behind;
+		void operator()() const {
+			ev_handler h = { lb, old_id, 0 };
+			srv->set_io_event(a[0], aio::io_events::in, h);
+			srv->post(sw);
+			for (int i = 0; i < behind; i++) srv->post(nop());
+		} };
+	swap_fd sw = { &srv, &lb, a, b, old_id, &new_id, &reused };
+	arm ar = { &srv, &lb, a, old_id, sw, behind };
+	srv.post(ar);
+	stopper st = { &srv };
+	srv.set_timer_event(ptime::now() + ptime::from_number(0.4), st);
+	srv.run();
+	std::string rp = "{\"scenario\":\"fd-reuse\",\"reactor\":" + std::to_string(reactor) + ",\"handlers_queued_behind\":" + std::to_string(behind) + "}";
+	if (reused) {
+		std::vector<int> count(lb.regs.size(), 0); std::vector<run const *> first(lb.regs.size(), (run const *)0);
+		for (auto const &x : lb.runs) { count[x.id]++; if (!first[x.id]) first[x.id] = &x; }
+		O().count("handlers_registered", 2);
+		if (count[old_id] != 1) O().viol(count[old_id] ? "aio:handler-ran-more-than-once:fd-reuse" : "aio:handler-never-ran:fd-reuse", "wait on the closed descriptor", rp);
+		else if (first[old_id]->err != aio::aio_error::canceled) O().viol("aio:cancelled-wait-got-the-event-of-the-descriptor-that-reused-its-number", "the wait was cancelled and its descriptor closed before anything happened on it; its handler got error " + std::to_string(first[old_id]->err), rp);
+		if (count[new_id] != 1) O().viol(count[new_id] ? "aio:handler-ran-more-than-once:fd-reuse" : "aio:handler-never-ran:fd-reuse", "wait on the new descriptor with the same number", rp);
+		else if (first[new_id]->err != 0) O().viol("aio:readable-descriptor-delivered-error:fd-reuse", "error " + std::to_string(first[new_id]->err), rp);
+		O().count("fd_reuse_scenarios");
+	} else O().count("fd_reuse_scenarios_number_not_reused");
+	if (b[0] >= 0) { srv.cancel_io_events(b[0]); close(b[0]); close(b[1]); }
+	if (a[0] >= 0) close(a[0]);
+	close(a[1]);
+}
+
 // Timers with nearly equal deadlines on an otherwise quiet loop: the loop must not go to sleep past the second one.
 // Bounded progress instead of "eventually": both handlers are awaited for 10 s; if they are still missing, one unrelated
 // post() is made - when that alone releases them the loop had computed a sleep that ignored a due timer.
@@ -572,6 +679,8 @@ int main(int argc, char **argv)
 			if (mode == "all" || mode == "hangup") hangup_scenario(r, reactors[ri]);
 			if (mode == "all" || mode == "prerun") prerun_scenario(r, reactors[ri]);
 			if (mode == "all" || mode == "rearm") for (int k = 0; k < 3; k++) rearm_scenario(r, reactors[ri]);
+			if (mode == "all" || mode == "doublewait") for (int k = 0; k < 4; k++) double_wait_scenario(r, reactors[ri]);
+			if (mode == "all" || mode == "fdreuse") for (int k = 0; k < 4; k++) fd_reuse_scenario(r, reactors[ri]);
 			if (mode == "all" || mode == "near") near_deadline_scenario(r, reactors[ri], (int)a.num("near", 40));
 			if (mode == "all" || mode == "overtake") overtake_scenario(r, reactors[ri], (int)a.num("overtake", 150));
 			if (mode == "all" || mode == "objects") for (int k = 0; k < 5; k++) object_scenario(r, reactors[ri]);
